@@ -53,6 +53,7 @@ type Scenario struct {
 	UseSetupAll bool   `json:"use_setup_all"`
 	Packets     int    `json:"packets"`
 	KeepAlive   bool   `json:"keep_alive"` // stay long enough for keep-alives to be sent
+	Tunnel      string `json:"tunnel,omitempty"` // lib workload over tcp: "" | http | ws (RTSP over HTTP / WebSocket)
 
 	// camera workload: what the scripted server answers to DESCRIBE.
 	Controls    []string `json:"controls,omitempty"`     // per media; "" = no attribute
@@ -212,6 +213,17 @@ func gen(seed uint64, tier string) Scenario {
 		sc.Variant = "play"
 		sc.Transport = "tcp"
 		genCamera(r, &sc)
+	}
+
+	// the tunnels put the URL's path into a HTTP request line as well; hash-derived so that
+	// no other choice of the scenario moves
+	if sc.Workload != "camera" && sc.Transport == "tcp" {
+		switch x := core.HS(seed, "c20.tunnel", "", 0) % 100; {
+		case x < 14:
+			sc.Tunnel = "http"
+		case x < 22:
+			sc.Tunnel = "ws"
+		}
 	}
 
 	nc := simnet.Config{Seed: seed ^ 0x20202020}
@@ -396,6 +408,9 @@ func shrink(sc Scenario) []Scenario {
 	if sc.Transport != "tcp" {
 		add(func(c *Scenario) { c.Transport = "tcp" })
 	}
+	if sc.Tunnel != "" {
+		add(func(c *Scenario) { c.Tunnel = "" })
+	}
 	if sc.SamePT {
 		add(func(c *Scenario) { c.SamePT = false })
 	}
@@ -438,7 +453,7 @@ func init() {
 		"clock (fake), entropy",
 	}
 	f.Excluded = []string{
-		"TLS / SRTP, HTTP and WebSocket tunnels, UDP-multicast (URL handling does not depend on the carrier; owned by C01/C04)",
+		"TLS / SRTP, UDP-multicast (URL handling does not depend on them; owned by C01/C17)", "request-line parsing inside the HTTP / WebSocket tunnels (lib workload, 22% of the tcp runs use a tunnel: handler URLs and media identity are checked, the credentials check is a substring search over everything the client wrote)",
 		"UDP transport against the scripted camera (TCP only there)",
 		"redirects (Location handling is owned by C12)",
 		"back channels",
